@@ -285,7 +285,7 @@ fn dedup_attrs(attrs: Vec<Attr>) -> Vec<Attr> {
 
 fn misc_strategy(p: &DocParams) -> BoxedStrategy<Node> {
     let text = if p.lookalikes {
-        prop::sample::select(vec!["t", " ", "\n  ", "x y", "&amp;", "&lt;/a&gt;", " lead", "trail ", "]]>", "-->", "?>"])
+        prop::sample::select(vec!["t", " ", "\n  ", "x y", "&amp;", "&lt;/a&gt;", " lead", "trail ", "]]>", "-->", "?>", "\u{feff}y", "\u{feff}", "\u{e9}\u{feff}"])
     } else {
         prop::sample::select(vec!["t", " ", "\n  ", "x y", "&amp;", " lead", "trail ", "x", "y", "z", "\n"])
     };
